@@ -220,6 +220,9 @@ pub fn execute(h: &History, want: &str, rep: &mut Report) -> Option<Violation> {
     }
 
     let mut cur = obs!(0, 0, None);
+    // the observation right after the latest tick: C12 compares consecutive ticks, also across a frequency
+    // change or reads in between (cleared when reset / set_phase reposition the oscillator)
+    let mut last_tick: Option<Obs> = None;
     // a fresh oscillator sits at phase 0
     if cur.k != 0 {
         fail!("C11", "new-not-zero", format!("fresh Lfo has counter {}", cur.k), 0, None);
@@ -229,6 +232,7 @@ pub fn execute(h: &History, want: &str, rep: &mut Report) -> Option<Violation> {
             Op::Reset => {
                 call!(lfo.reset(), i, None);
                 cur = obs!(i as u8, i, None);
+                last_tick = None;
                 n_eval += 1;
                 rep.count("lfo.reset", 1);
                 if cur.k != 0 {
@@ -238,6 +242,7 @@ pub fn execute(h: &History, want: &str, rep: &mut Report) -> Option<Violation> {
             Op::SetPhase(p) => {
                 call!(lfo.set_phase(*p), i, None);
                 cur = obs!(i as u8, i, None);
+                last_tick = None;
                 n_eval += 1;
                 let p64 = *p as f64;
                 if p64 >= 0.0 {
@@ -303,13 +308,17 @@ pub fn execute(h: &History, want: &str, rep: &mut Report) -> Option<Violation> {
                 let hi = ideal * (1.0 + 1.0 / 8_388_608.0);
                 for t in 1..=*n {
                     let prev = cur;
+                    let prev_tick = last_tick.unwrap_or(cur);
                     call!(lfo.tick(), i, Some(t));
                     cur = obs!(t as u8, i, Some(t));
+                    last_tick = Some(cur);
                     n_eval += 1;
                     n_ticks += 1;
                     let dk = cur.k.wrapping_sub(prev.k) & M24;
-                    // --- C11: advance by f/fs of a cycle (mod 1) ---
+                    // --- C11: advance by f/fs of a cycle (mod 1); stated for f in [0, fs] ---
+                    let c11_applies = freq <= fs as f64;
                     match inc_seen {
+                        _ if !c11_applies => {}
                         Some(d) if d == dk => {}
                         Some(d) => {
                             fail!("C11", "tick-not-constant", format!("counter step changed {} -> {} without a frequency change (f={:e})", d, dk, freq), i, Some(t));
@@ -338,9 +347,9 @@ pub fn execute(h: &History, want: &str, rep: &mut Report) -> Option<Violation> {
                         n_wraps += 1;
                     }
                     // --- C12: continuity ---
-                    let dphi = circ(cur.k, prev.k) as f64 / TWO24;
-                    let ds = (cur.sine as f64 - prev.sine as f64).abs();
-                    let dt = (cur.tri as f64 - prev.tri as f64).abs();
+                    let dphi = circ(cur.k, prev_tick.k) as f64 / TWO24;
+                    let ds = (cur.sine as f64 - prev_tick.sine as f64).abs();
+                    let dt = (cur.tri as f64 - prev_tick.tri as f64).abs();
                     let bound_s = 2.0 * std::f64::consts::PI * 1.002 * dphi + 2.0 / 8_388_608.0;
                     if !(ds <= bound_s) {
                         fail!("C12", "sine-step", format!("sine moved {:e} in one tick (k {} -> {}, phase step {:e}); bound {:e}", ds, prev.k, cur.k, dphi, bound_s), i, Some(t));
@@ -399,8 +408,13 @@ pub fn pick_fs(r: &mut Rng) -> f32 {
     }
 }
 
-fn pick_freq(r: &mut Rng, fs: f32) -> f32 {
+fn pick_freq(r: &mut Rng, fs: f32, above_fs: bool) -> f32 {
     let step = fs as f64 / TWO24;
+    if above_fs && r.chance(0.12) {
+        // C10 / C12 are stated for every phase any history can reach: also histories with f > fs (the counter still
+        // wraps; C11 and C17 are only stated up to fs and are not judged there)
+        return (fs as f64 * *r.pick(&[1.001, 1.5, 1.7, 2.0, 3.0, 7.3, 64.0, 100.0])) as f32;
+    }
     let f = match r.below(12) {
         0 => 0.0,
         1 => f32::from_bits(1 + r.below(1000) as u32) as f64, // subnormal
@@ -431,16 +445,16 @@ fn pick_phase(r: &mut Rng) -> f32 {
     }
 }
 
-pub fn random_history(r: &mut Rng, max_ticks: u64) -> History {
+pub fn random_history(r: &mut Rng, max_ticks: u64, above_fs: bool) -> History {
     let fs = pick_fs(r);
-    let mut ops = vec![Op::SetFreq(pick_freq(r, fs))];
+    let mut ops = vec![Op::SetFreq(pick_freq(r, fs, above_fs))];
     let n_ops = 4 + r.below(40);
     let mut budget = max_ticks;
     for _ in 0..n_ops {
         let op = match r.below(10) {
             0 => Op::Reset,
             1 | 2 => Op::SetPhase(pick_phase(r)),
-            3 | 4 => Op::SetFreq(pick_freq(r, fs)),
+            3 | 4 => Op::SetFreq(pick_freq(r, fs, above_fs)),
             5 => Op::Read(r.below(256) as u8),
             _ => {
                 let n = (1 + r.below(1 + budget / 4)).min(budget);
@@ -462,7 +476,31 @@ fn run_and_record(h: &History, want: &str, rep: &mut Report, sample: bool) {
         rep.sample(format!("lfo fs={} ops=[{}{}]", h.fs, txt.join(", "), if h.ops.len() > 12 { ", ..." } else { "" }));
     }
     if let Some(v) = execute(h, want, rep) {
-        rep.violate(v);
+        rep.violate(shrink(h, want, v));
+    }
+}
+
+pub fn shrink(h: &History, want: &str, v: Violation) -> Violation {
+    let base = match Text::parse(&v.replay).ok().and_then(|t| History::parse(&t).ok()) {
+        Some(c) => c,
+        None => return v,
+    };
+    let total: u64 = base.ops.iter().map(|o| if let Op::Tick(n) = o { *n } else { 1 }).sum();
+    if base.ops.len() > 2000 || total > 200_000 {
+        return v;
+    }
+    let sig = v.signature.clone();
+    let fails = |ops: &[Op]| {
+        let hh = History { fs: h.fs, ops: ops.to_vec() };
+        let mut scratch = Report::new();
+        matches!(execute(&hh, want, &mut scratch), Some(x) if x.signature == sig)
+    };
+    let ops = crate::report::shrink_ops(&base.ops, 400, fails);
+    let hh = History { fs: h.fs, ops };
+    let mut scratch = Report::new();
+    match execute(&hh, want, &mut scratch) {
+        Some(x) if x.signature == sig => x,
+        _ => v,
     }
 }
 
@@ -534,6 +572,13 @@ pub fn directed(ctx: &Ctx, want: &str) -> Report {
         }
         ops.push(Op::SetFreq(fs));
         ops.push(Op::Tick(20));
+        if want != "C17" && want != "C11" {
+            for m in [1.001f64, 1.7, 2.0, 31.0] {
+                ops.push(Op::SetFreq((fs as f64 * m) as f32));
+                ops.push(Op::Tick(if ctx.tier == Tier::Small { 8 } else { 1200 }));
+            }
+            ops.push(Op::SetFreq(fs / 3.0));
+        }
         // phases: dyadic grid, both signs, beyond one cycle
         let grid = if ctx.tier == Tier::Small { 6 } else { 64 };
         for i in 0..grid {
@@ -573,7 +618,7 @@ pub fn random(ctx: &Ctx, want: &str) -> Report {
         let per = (n_hist as usize + shards - 1) / shards;
         for j in 0..per {
             let max_ticks = if ctx.tier == Tier::Small { 40 } else { 2_000 };
-            let h = random_history(&mut r, max_ticks);
+            let h = random_history(&mut r, max_ticks, want != "C17" && want != "C11");
             run_and_record(&h, want, &mut rep, s == 0 && j < 2);
         }
         rep
